@@ -278,6 +278,11 @@ def check_program_handles(case) -> list[Fail]:
         what = {"LoadConst": "load", "Call": "call", "inserted": "insert"}.get(k, "add_" + events[idx].get("mode", "op") if events[idx]["e"] == "op" else events[idx]["e"])
         expect(handle, what)
     for rid, b in r.builders.items():
+        if rid == -1 and case["root"]["kind"] in ("dfg", "cfg", "cond", "loop") and case.get("complete", True) and hasattr(b, "parent_node"):
+            # a container builder that is the root of its own HUGR is a handle on its root node as well
+            expect(b.parent_node, "root-container:" + case["root"]["kind"])
+            expect(b, "root-builder:" + case["root"]["kind"])
+            continue
         if rid not in R or R[rid]["tree"] != -1 or rid == -1:
             continue
         kind = R[rid]["kind"]
